@@ -81,17 +81,17 @@ type Options struct {
 	NAccounts int                    // plain funded accounts
 	// small ranges so that identity-update / snapshot blocks are frequent
 	StatusSwitchRange, DelegationSwitchRange, DiscriminationSwitchRange, SnapshotRange uint64
-	FirstCeremonyIn    time.Duration // genesis time -> first validation
-	ValidationInterval time.Duration // 0 = NormalizedEpochDuration (weekday logic)
-	FlipLottery, ShortSession, LongSession time.Duration
-	StartTime          time.Time
-	GodIsIdentity      bool
-	ZeroStakes         bool // genesis identities without stake
-	AllValidated       bool // genesis identities are all Newbie/Verified/Human
-	EpochNoKills       bool // synthetic epochs never take a validated status away (no stake burnt)
-	Epoch              EpochMode
-	MempoolCfg         *config.Mempool
-	Tweak              func(c *config.ConsensusConf)
+	FirstCeremonyIn                                                                    time.Duration // genesis time -> first validation
+	ValidationInterval                                                                 time.Duration // 0 = NormalizedEpochDuration (weekday logic)
+	FlipLottery, ShortSession, LongSession                                             time.Duration
+	StartTime                                                                          time.Time
+	GodIsIdentity                                                                      bool
+	ZeroStakes                                                                         bool // genesis identities without stake
+	AllValidated                                                                       bool // genesis identities are all Newbie/Verified/Human
+	EpochNoKills                                                                       bool // synthetic epochs never take a validated status away (no stake burnt)
+	Epoch                                                                              EpochMode
+	MempoolCfg                                                                         *config.Mempool
+	Tweak                                                                              func(c *config.ConsensusConf)
 	// GenesisTweak pre-populates the state a replica generates its genesis block from (called on
 	// every replica that boots on a database without a chain, before InitializeChain): what it
 	// writes becomes part of the genesis state, e.g. a network that already consists of two shards.
@@ -141,24 +141,24 @@ func (o *Options) defaults() {
 }
 
 type World struct {
-	Opt      Options
-	Rng      *verifutil.Rng
-	Cons     *config.ConsensusConf
-	Val      *config.ValidationConfig
-	God      *Actor
-	Nodes    []*Actor // Nodes[i] owns Replicas[i+1]
-	Idents   []*Actor
-	Accounts []*Actor
-	ByAddr   map[common.Address]*Actor
-	Alloc    map[common.Address]config.GenesisAllocation
-	Replicas []*Replica // Replicas[0] is god's
-	Blocks   []*types.Block // canonical chain produced so far (index 0 = height 2)
-	Genesis  int64
-	dirSeq   int
-	Stats    map[string]int
-	Certs    map[common.Hash]*types.BlockCert // real quorum certificates of canonical blocks (when a quorum of held keys exists)
-	ViewOverride *Replica // the generator looks at this replica's head state instead of replica 0
-	beforePropose func(p *Replica)
+	Opt              Options
+	Rng              *verifutil.Rng
+	Cons             *config.ConsensusConf
+	Val              *config.ValidationConfig
+	God              *Actor
+	Nodes            []*Actor // Nodes[i] owns Replicas[i+1]
+	Idents           []*Actor
+	Accounts         []*Actor
+	ByAddr           map[common.Address]*Actor
+	Alloc            map[common.Address]config.GenesisAllocation
+	Replicas         []*Replica     // Replicas[0] is god's
+	Blocks           []*types.Block // canonical chain produced so far (index 0 = height 2)
+	Genesis          int64
+	dirSeq           int
+	Stats            map[string]int
+	Certs            map[common.Hash]*types.BlockCert // real quorum certificates of canonical blocks (when a quorum of held keys exists)
+	ViewOverride     *Replica                         // the generator looks at this replica's head state instead of replica 0
+	beforePropose    func(p *Replica)
 	beforeDistribute func(b *types.Block, p *Replica)
 	// OnBlock observers run after a block was inserted into every replica
 	OnBlock []func(w *World, b *types.Block)
